@@ -9,6 +9,11 @@ package syncx
 //	call id=<n> g=<goroutine> key=<k> ex=<0|1> pre=<n> yield=<n> err=<0|1> hold=<0|1> [panic=1]
 //	   => inv=<stamp> ret=<stamp> val=<id|nil> fresh=<0|1|-> err=<id|-> fs=<stamp|-> fe=<stamp|-> runs=<n> stuck=<0|1> [panic=1]
 //
+// ResourceManager sections may also contain
+//
+//	inject id=<n> key=<k>  => ok              rm.Inject before the goroutines start (a pre-registered resource)
+//	close                  => closed=<ids|-> multi=<ids|-> err=<-|bad>   rm.Close() after all calls returned: which instances were closed
+//
 // panic=1 in the op: the user function panics (after its last stamp); panic=1 in the observation: the call
 // panicked (recovered by the harness goroutine).
 //
@@ -22,6 +27,7 @@ import (
 	"io"
 	"os"
 	"runtime"
+	"sort"
 	"strings"
 	"sync"
 	"sync/atomic"
@@ -37,9 +43,12 @@ type c07Err struct{ id int }
 
 func (e *c07Err) Error() string { return fmt.Sprintf("e%d", e.id) }
 
-type c07Res struct{ id int }
+type c07Res struct {
+	id     int
+	closed atomic.Int32
+}
 
-func (r *c07Res) Close() error { return nil }
+func (r *c07Res) Close() error { r.closed.Add(1); return nil }
 
 type c07Call struct {
 	text                  string
@@ -117,7 +126,18 @@ func c07RunSection(cfg verifh.Cfg, ops []string) []string {
 	out := make([]string, len(ops))
 	var calls []*c07Call
 	idx := map[*c07Call]int{}
+	type c07Inject struct{ i, id, key int }
+	var injects []c07Inject
+	closeAt := -1
 	for i, op := range ops {
+		if f := strings.Fields(op); len(f) > 0 && f[0] == "inject" && mode == "rm" {
+			ic := verifh.ParseCfg(op)
+			injects = append(injects, c07Inject{i, ic.Int("id", -1), ic.Int("key", 0)})
+			continue
+		} else if len(f) == 1 && f[0] == "close" && mode == "rm" && closeAt < 0 {
+			closeAt = i
+			continue
+		}
 		c, ok := c07Parse(op)
 		if !ok {
 			out[i] = "bad-op"
@@ -126,6 +146,7 @@ func c07RunSection(cfg verifh.Cfg, ops []string) []string {
 		idx[c] = i
 		calls = append(calls, c)
 	}
+	var allRes []*c07Res // every resource instance made in this section (under mu)
 	var (
 		stamp   atomic.Int64
 		mu      sync.Mutex // guards the observation fields (goroutines of a stuck section keep running)
@@ -143,6 +164,12 @@ func c07RunSection(cfg verifh.Cfg, ops []string) []string {
 			slow.spins = append(slow.spins, verifh.Atoi(f))
 		}
 		rm.singleFlight = slow
+	}
+	for _, in := range injects {
+		res := &c07Res{id: in.id}
+		allRes = append(allRes, res)
+		rm.Inject(fmt.Sprint(in.key), res)
+		out[in.i] = "ok"
 	}
 	heldKeys := map[int]bool{}
 	for _, c := range calls {
@@ -195,7 +222,11 @@ func c07RunSection(cfg verifh.Cfg, ops []string) []string {
 				if c.serr {
 					return nil, &c07Err{c.id}
 				}
-				return &c07Res{c.id}, nil
+				res := &c07Res{id: c.id}
+				mu.Lock()
+				allRes = append(allRes, res)
+				mu.Unlock()
+				return res, nil
 			}
 			if c.serr {
 				return c07Val{c.id}, &c07Err{c.id}
@@ -301,6 +332,42 @@ func c07RunSection(cfg verifh.Cfg, ops []string) []string {
 	}
 	close(release)
 	allOk := waitTimeout(&allWg)
+	if closeAt >= 0 {
+		if !allOk {
+			out[closeAt] = "closed=- multi=- err=skipped"
+		} else {
+			errS := "-"
+			func() {
+				defer func() {
+					if p := recover(); p != nil {
+						errS = "panic"
+					}
+				}()
+				if err := rm.Close(); err != nil {
+					errS = "bad"
+				}
+			}()
+			var once, multi []string
+			mu.Lock()
+			sort.Slice(allRes, func(a, b int) bool { return allRes[a].id < allRes[b].id })
+			for _, r := range allRes {
+				switch n := r.closed.Load(); {
+				case n == 1:
+					once = append(once, fmt.Sprint(r.id))
+				case n > 1:
+					multi = append(multi, fmt.Sprint(r.id))
+				}
+			}
+			mu.Unlock()
+			j := func(l []string) string {
+				if len(l) == 0 {
+					return "-"
+				}
+				return strings.Join(l, ",")
+			}
+			out[closeAt] = fmt.Sprintf("closed=%s multi=%s err=%s", j(once), j(multi), errS)
+		}
+	}
 	mu.Lock()
 	defer mu.Unlock()
 	for _, c := range calls {
@@ -361,6 +428,14 @@ func c07Gen(r *verifh.Rng) []verifh.Section {
 		panicSec := mode != "rm" && r.Chance(1, 4)
 		var ops []string
 		id := 0
+		if mode == "rm" && r.Chance(1, 3) {
+			// pre-registered resources (Inject): GetResource must hand out exactly those, create never runs
+			for key := 0; key < k; key++ {
+				if r.Chance(1, 2) {
+					ops = append(ops, fmt.Sprintf("inject id=%d key=%d", 1000+key, key))
+				}
+			}
+		}
 		for gi := 0; gi < g; gi++ {
 			n := r.Range(1, verifh.Scale(6, 10))
 			holder := holdSec && gi == 0
@@ -409,6 +484,9 @@ func c07Gen(r *verifh.Rng) []verifh.Section {
 			}
 		}
 		cfg := fmt.Sprintf("mode=%s g=%d k=%d procs=%d", mode, g, k, procs)
+		if mode == "rm" && r.Chance(2, 3) {
+			ops = append(ops, "close")
+		}
 		if mode == "rm" {
 			// delays between entering GetResource and the flight (and after it): 1..4 yield counts, dealt round-robin
 			sfd := "-"
